@@ -730,7 +730,7 @@ def rule_memo(ctx, px, R="R-C10-MEMO"):
         ok = not problems
         ctx.ob(R, f.module.rel, f"{f.short} [{'/'.join(d for d in decos if d in CACHE_DECOS)}]", ok,
                "pure memo: result depends on arguments only" if ok else "; ".join(sorted(set(problems))), f.node.lineno)
-    ctx.floor(R, n, 6)
+    ctx.floor(R, n, 3)      # (several per-language copies of one memo may be pulled up into a base class)
 
 
 def rule_fresh_ctx(ctx, px, ts):
